@@ -804,6 +804,24 @@ fn contents(dir: &Path, m: &MCase, rep: &mut Report) -> Contents {
     Contents { parsed, crash, n_err }
 }
 
+/// in-process outcome of every gcno item with its gcda files in the order of `m.args`:
+/// 'o' accepted, 'e' `Err` (item skipped), 'c' the u64 overflow panic in src/reader.rs, 'p' another panic, '-' not sent
+fn gcno_outcomes(m: &MCase) -> Vec<(char, String)> {
+    m.stems.iter().map(|st| {
+        if m.orphan_dropped(st) {
+            return ('-', String::new());
+        }
+        let ds = m.gcdas_of(st);
+        let g = m.tree_file(&format!("in/g0/{}.gcno", st)).cloned().unwrap_or_default();
+        let (branch, stem) = (m.core.branch, st.clone());
+        match guarded(move || grcov::Gcno::compute(&stem, g, ds, branch)) {
+            Ok(Ok(_)) => ('o', String::new()),
+            Ok(Err(e)) => ('e', e.to_string()),
+            Err(msg) => (if msg.contains("reader.rs") && msg.contains("with overflow") { 'c' } else { 'p' }, msg),
+        }
+    }).collect()
+}
+
 fn expected_obs(ty: &str, dir: &Path, m: &MCase, cont: &Contents) -> runall::Obs {
     runall::expected(dir, &m.core, &cont.parsed, true).iter().map(|(k, c)| (k.clone(), project_any(ty, c))).collect()
 }
@@ -1043,7 +1061,37 @@ pub fn eval_gcno(rep: &mut Report, dir: &Path, m: &MCase) -> Option<Pending> {
                     _ => false,
                 };
                 let same_sorted = !m.sorted_for(&ty) || runall::mask_timestamp(&out.stdout) == runall::mask_timestamp(&out2.stdout);
-                if out2.exit != Some(0) || !same || !same_sorted {
+                if out2.exit != Some(0) {
+                    // The second order ends without a report although the first one wrote one. Report
+                    // bytes are not compared. The only explained way: a gcno item whose gcda list holds
+                    // BOTH a gcda that `Gcno::compute` rejects (`Err`: the item is skipped, exit 0) and one
+                    // whose counters overflow a u64 sum in reader.rs (debug build: panic, the worker dies,
+                    // exit 1 – known finding C14-gcno-counter-overflow): whichever is read first decides.
+                    // Matcher: (a) the dying run's stderr shows the overflow panic in src/reader.rs and it
+                    // wrote nothing, (b) in-process, some stem is `Err` in the first order and the overflow
+                    // panic in the second, (c) the model agrees for the second order (`panic`).
+                    let mut m2 = m.clone();
+                    m2.args = args2.clone();
+                    let (o1, o2) = (gcno_outcomes(m), gcno_outcomes(&m2));
+                    let order_flip = o1.iter().zip(o2.iter()).any(|(a, b)| a.0 == 'e' && b.0 == 'c');
+                    let died_on_overflow = out2.exit == Some(1) && out2.stdout.is_empty() && out2.stderr.contains("reader.rs") && out2.stderr.contains("with overflow");
+                    let params2 = runall::Params::default();
+                    let x2 = ReqExtra { rec_order: &params2.rec_order, items: &params2.items, raws: false, date: None, html: false };
+                    let req2 = request("run.all", &ty, dir, &m2, &fs, &x2);
+                    let model2 = run_model(&[req2], &rep.workdir, "runmore_pair").into_iter().next().unwrap_or_default();
+                    let model_dies = model2.trim_end() == "panic";
+                    rep.count("runmore.gcno.oracle.second_run.dies");
+                    if order_flip && died_on_overflow && model_dies {
+                        rep.fail("oracle", Some("C14-gcno-counter-overflow"),
+                            format!("argument order decides which failing gcda of a stem is read first: {:?} -> Gcno::compute returns Err before the overflowing gcda is read (item skipped, exit 0); {:?} -> the recorded debug-build u64 overflow in src/reader.rs kills the worker (exit 1, no report). The two runs differ only through known finding C14-gcno-counter-overflow (in-process outcomes per stem {:?} / {:?}; the model says panic for the second order as well)",
+                                m.args, args2, o1.iter().map(|o| o.0).collect::<String>(), o2.iter().map(|o| o.0).collect::<String>()),
+                            json!({"case": case, "second_args": args2, "second_stderr": out2.stderr.chars().take(600).collect::<String>()}));
+                    } else {
+                        rep.fail("oracle", None, format!("two runs on the same inputs (arguments {:?} / {:?}, --threads {} / {}): the first writes a {} report, the second ends with {:?} (in-process outcomes of the gcno items {:?} / {:?}, overflow panic in reader.rs on stderr: {}, model for the second order: {})",
+                            m.args, args2, m.core.threads, t2, ty, out2.exit, o1.iter().map(|o| o.0).collect::<String>(), o2.iter().map(|o| o.0).collect::<String>(), died_on_overflow, model2.chars().take(20).collect::<String>()),
+                            json!({"case": case, "first": out.stdout, "second": out2.stdout, "second_args": args2, "second_stderr": out2.stderr.chars().take(600).collect::<String>()}));
+                    }
+                } else if !same || !same_sorted {
                     rep.fail("oracle", None, format!("two runs on the same inputs (arguments {:?} / {:?}, --threads {} / {}) write {} reports whose bytes differ in more than the order of the file records (exit {:?})",
                         m.args, args2, m.core.threads, t2, ty, out2.exit), json!({"case": case, "first": out.stdout, "second": out2.stdout}));
                 }
